@@ -94,8 +94,11 @@ def _canon(r):
     return r.sexpr()
 
 
-def sum_const(space, mask_key, row):
+def sum_const(space, mask_key, row, outer=()):
     key = hashlib.sha1((_canon(row)).encode()).hexdigest()[:10]
+    if outer:
+        # mask or row factor refer to the generic row of another space: the sum is a function of it
+        return z3.Function(f"SUM[{space.name},{mask_key},{key}]", *([v.sort() for v in outer] + [z3.RealSort()]))(*outer)
     return z3.Real(f"SUM[{space.name},{mask_key},{key}]")
 
 
@@ -160,8 +163,11 @@ def sigma(it, a):
         if r is None:
             total = total + _real(s) * cnt
         else:
-            sc = sum_const(a.space, mkey, r)
-            it.ctx.facts.append(z3.Implies(cnt == 0, sc == 0))      # the empty sum
+            from .arrays import outer_vars
+            ov = outer_vars(a.space, mask if mask is not True else None, r)
+            sc = sum_const(a.space, mkey, r, ov)
+            empty = z3.Implies(cnt == 0, sc == 0)                    # the empty sum
+            it.ctx.facts.append(z3.ForAll(ov, empty, patterns=[sc]) if ov else empty)
             total = total + _real(s) * sc
     it.ctx.ghost.setdefault("sigma", []).append((a.space.name, mkey))
     return SV(z3.simplify(total))
